@@ -1,7 +1,7 @@
 """C12 - StatusList2021 is an independent-bit vector with one-way revocation (engine M part)."""
 import z3
 from core import *
-from execu import Exec, State, Refuse
+from execu import Exec, State, Refuse, VOver
 from values import *
 import models
 import vc
@@ -152,8 +152,173 @@ def run(ctx, prog, info):
             goals.append(('len panics', o.st.pc))
         elif o.kind == 'return':
             goals.append(('len != 8*bytes', o.st.pc + [o.val.e != ln4 * 8]))
-    ob('len/eight-per-byte', goals)
+    ob('len/eight-per-byte', goals, replay={'scenario': 'statuslist_get'})
+    one_way(ctx, prog, ex, ob, vars_)
     ctx.extra['modelled_core_functions'] = models.names()
+
+
+def get_expr(ex, f_get, st, heap, k):
+    """(ok_cond, bit) of the real `get` on the list whose bytes are in cell `heap` - convention-free reading"""
+    s0 = State()
+    s0.mem = dict(st.mem)
+    s0.mem['slq'] = VAgg('StatusList2021', None, [VRef(heap)])
+    oks, bits = [], []
+    for o in ex.run(f_get, [VRef('slq'), VInt(k, 64)], s0):
+        if o.kind == 'return' and is_variant(o.val, 'Ok'):
+            oks.append(z3.And(*o.st.pc) if o.st.pc else z3.BoolVal(True))
+            bits.append(z3.And(*(o.st.pc + [o.val.fields[0].e])))
+        elif o.kind == 'panic':
+            pass
+    return (z3.Or(*oks) if oks else z3.BoolVal(False)), (z3.Or(*bits) if bits else z3.BoolVal(False))
+
+
+def one_way(ctx, prog, ex0, ob, vars_):
+    """MutStatusList::set_entry / StatusList2021Credential::{set_entry, entry}: purpose-dependent irreversibility"""
+    import re
+    f_get = prog.one(r'status_list::<impl at [^>]*>::get$')
+    f_mut = prog.one(r'::set_entry$', sig=r'^&mut MutStatusList')
+    f_cset = prog.one(r'::set_entry$', sig=r'^&mut (\w+::)*StatusList2021Credential, usize, bool')
+    f_entry = prog.one(r'credential::<impl at [^>]*>::entry$', sig=r'StatusList2021Credential, usize')
+    idx, val, k = vars_['idx'], vars_['val'], vars_['k']
+    rev = prog.enums['StatusPurpose']['Revocation']
+
+    # -- MutStatusList::set_entry from an arbitrary list state and purpose
+    ex = Exec(prog, models=models.MODELLED)
+    st = State()
+    arr, ln = fresh_list(st)
+    st.mem['m'] = VAgg('MutStatusList', None, [VAgg('StatusList2021', None, [VRef('heap')]),
+                                               VSym(('leaf', 'purpose'), 'StatusPurpose')])
+    dpur = ex.discr_var(('leaf', 'purpose'))
+    vars_['purpose'] = dpur
+    outs = ex.run(f_mut, [VRef('m'), VInt(idx, 64), VBool(val)], st)
+    funcs_before = set(ex.encoded)
+    goals = []
+    pre_ok, pre_bit = get_expr(ex, f_get, st, 'heap', idx)
+    prek_ok, prek_bit = get_expr(ex, f_get, st, 'heap', k)
+    for o in outs:
+        if o.kind == 'panic':
+            goals.append(('panic ' + o.msg, o.st.pc))
+            continue
+        if o.kind != 'return':
+            raise Refuse('set_entry outcome ' + o.kind)
+        forbidden = z3.And(dpur == rev, z3.Not(val), pre_bit)
+        if is_variant(o.val, 'Ok'):
+            goals.append(('revocation entry cleared', o.st.pc + [pre_ok, forbidden]))
+            post_ok, post_bit = get_expr(ex, f_get, o.st, 'heap', k)
+            goals.append(('write not as bit-vector model', o.st.pc + [prek_ok, z3.Or(z3.Not(post_ok), post_bit != z3.If(k == idx, val, prek_bit))]))
+        else:
+            post = o.st.mem['heap']
+            goals.append(('refused write changed the list', o.st.pc + [z3.Select(post.arr, k) != z3.Select(arr, k)]))
+            goals.append(('permitted in-range write refused', o.st.pc + [pre_ok, z3.Not(forbidden)]))
+    ob('mut-status-list/one-way-revocation', goals, replay={'scenario': 'statuslist_oneway'})
+
+    # -- StatusList2021Credential::set_entry / entry with the gzip/base64 codec as an uninterpreted pair
+    snaps = {}
+
+    def m_decode(ex, st, fr, name, args, dty):
+        s_ok = st.fork()
+        a2, l2 = fresh_list(s_ok, 'D')
+        s_err = st.fork()
+        return [(s_ok, VAgg('Result', 'Ok', [VAgg('StatusList2021', None, [VRef('heapD')])]), 'ok', ''),
+                (s_err, VAgg('Result', 'Err', [VSym(('leaf', 'decode_error'))]), 'ok', '')]
+
+    def m_encode(ex, st, fr, name, args, dty):
+        v = args[0]
+        ref = v.fields[0]
+        n = len(snaps)
+        cell = 'snap%d' % n
+        st.mem[cell] = ex.load(st, ref.cell, ref.path)
+        snaps[cell] = True
+        return [(st, VSym(('leaf', 'encoded:' + cell), 'String'), 'ok', '')]
+
+    custom = [(re.compile(r'StatusList2021::try_from_encoded_str$'), m_decode),
+              (re.compile(r'StatusList2021::into_encoded_str$'), m_encode)]
+    ex2 = Exec(prog, models=custom + models.MODELLED)
+    st = State()
+    st.mem['cred'] = VSym(('leaf', 'cred'), 'StatusList2021Credential')
+    outs = ex2.run(f_cset, [VRef('cred'), VInt(idx, 64), VBool(val)], st)
+    goals = []
+    n_ok = 0
+    for o in outs:
+        if o.kind == 'panic':
+            goals.append(('panic ' + o.msg, o.st.pc))
+            continue
+        if o.kind != 'return':
+            raise Refuse('cred set_entry outcome ' + o.kind)
+        cred = o.st.mem['cred']
+        written = isinstance(cred, VOver)
+        if is_variant(o.val, 'Ok'):
+            n_ok += 1
+            if not written:
+                goals.append(('Ok without storing the re-encoded list', o.st.pc))
+                continue
+            encs = [t for t in term_leaves(ex2.to_term(o.st, cred)) if t.startswith('encoded:')]
+            if len(encs) != 1:
+                goals.append(('Ok but encoded_list is not the re-encoded list', o.st.pc))
+                continue
+            snap = encs[0].split(':', 1)[1]
+            # purpose of this credential as read by the code
+            dps = [v for kk, v in ex2.symvars.items() if kk[0] == 'd' and 'cred' in kk[1] and kk[1].count('.') >= 2]
+            pre_ok, pre_bit = get_expr(ex2, f_get, o.st_pre if hasattr(o, 'st_pre') else base_with(o.st, 'heapD', 'D'), 'heapD0', idx)
+            prek_ok, prek_bit = get_expr(ex2, f_get, base_with(o.st, 'heapD', 'D'), 'heapD0', k)
+            post_ok, post_bit = get_expr(ex2, f_get, o.st, snap, k)
+            goals.append(('stored list is not the bit-vector update of the decoded list',
+                          o.st.pc + [prek_ok, z3.Or(z3.Not(post_ok), post_bit != z3.If(k == idx, val, prek_bit))]))
+            pur = purpose_var(ex2)
+            if pur is None:
+                raise Refuse('purpose of the credential was never read')
+            goals.append(('revocation entry cleared through the credential',
+                          o.st.pc + [pur == rev, z3.Not(val), pre_ok, pre_bit]))
+        else:
+            if written:
+                goals.append(('failed set_entry modified the credential', o.st.pc))
+    if n_ok == 0:
+        raise Refuse('credential set_entry has no Ok path')
+    ob('credential/set_entry-one-way-and-stores-update', goals, replay={'scenario': 'statuslist_oneway'})
+
+    ex3 = Exec(prog, models=custom + models.MODELLED)
+    st = State()
+    st.mem['cred'] = VSym(('leaf', 'cred'), 'StatusList2021Credential')
+    outs = ex3.run(f_entry, [VRef('cred'), VInt(k, 64)], st)
+    goals = []
+    tab = prog.enums['CredentialStatus']
+    seen = set()
+    for o in outs:
+        if o.kind == 'panic':
+            goals.append(('panic ' + o.msg, o.st.pc))
+            continue
+        if is_variant(o.val, 'Ok'):
+            stv = o.val.fields[0]
+            if not isinstance(stv, VAgg):
+                raise Refuse('entry status %r' % (stv,))
+            seen.add(stv.variant)
+            pur = purpose_var(ex3)
+            ok_, bit = get_expr(ex3, f_get, o.st, 'heapD', k)
+            expect = {'Revoked': z3.And(bit, pur == rev), 'Suspended': z3.And(bit, pur != rev),
+                      'Valid': z3.Not(bit)}[stv.variant]
+            goals.append(('entry() reports %s wrongly' % stv.variant, o.st.pc + [ok_, z3.Not(expect)]))
+    if seen != {'Revoked', 'Suspended', 'Valid'}:
+        raise Refuse('entry() paths reach only %s' % seen)
+    ob('credential/entry-status-mapping', goals, replay={'scenario': 'statuslist_oneway'})
+    for e in (ex, ex2, ex3):
+        for f in e.encoded:
+            ctx.functions.add(f)
+    ctx.stubs.append('StatusList2021::try_from_encoded_str / into_encoded_str (gzip+base64) modelled as an uninterpreted decode/encode pair in the credential-level obligations')
+
+
+def base_with(st, cell, tag):
+    """state in which cell+'0' holds the list as decoded (before any write)"""
+    s = st.fork()
+    arr = z3.Array('store' + tag, z3.BitVecSort(64), z3.BitVecSort(8))
+    ln = z3.BitVec('nbytes' + tag, 64)
+    s.mem[cell + '0'] = VBytes(arr, z3.BitVecVal(0, 64), ln)
+    return s
+
+
+def purpose_var(ex):
+    c = [v for kk, v in ex.symvars.items() if kk[0] == 'd' and kk[1].startswith('cred') or (kk[0] == 'd' and '*cred' in kk[1])]
+    c = [v for kk, v in ex.symvars.items() if kk[0] == 'd' and 'cred' in kk[1]]
+    return c[0] if len(c) == 1 else None
 
 
 def preserve(base, after):
@@ -184,3 +349,21 @@ def main(ctx):
     prog, info = load(CRATES)
     ctx.extra['mir'] = info
     guarded(ctx, 'status-list kernels', 'M', lambda: run(ctx, prog, info))
+    guarded(ctx, 'status-list API harnesses', 'K', lambda: kani_part(ctx))
+
+
+def kani_part(ctx):
+    import kanirun
+    fn = ['StatusList2021::default', 'StatusList2021::new', 'StatusList2021::set', 'StatusList2021::get']
+    specs = [
+        dict(harness='c12_out_of_range_is_error', timeout_s=600, functions=fn,
+             bounds='default 131072-entry list, every index >= len, both values'),
+        dict(harness='c12_twin_must_fail', timeout_s=600, must_fail=True, functions=fn),
+    ]
+    if ctx.tier == 'thorough':
+        specs.append(dict(harness='c12_two_writes_one_read', timeout_s=2400, functions=fn,
+                          bounds='default list, two writes + one read at arbitrary indices < 131072, arbitrary values'))
+    res = kanirun.run_many(specs)
+    kanirun.judge(ctx, specs, res, 'c12')
+
+
